@@ -105,6 +105,15 @@ def extra_configs(prop, tier, seed):
     if prop == 'C12':
         for c in [c for c in runlevel.gen_configs('thorough', seed + 77) if c['kind'] == 'GP'][:40 if tier == 'quick' else 120]:
             extra.append(dict(c, hook='observer'))
+        # trees that overflow to NaN (inf - inf, 0 * inf): the agent's position must still be its tree's value
+        # limited to the bounds (NaN stays NaN); without selection operators such runs complete (cf. K4)
+        rng = _random.Random(seed * 23 + 9)
+        for j, c in enumerate([c for c in runlevel.gen_configs('thorough', seed + 78) if c['kind'] == 'GP'][:8 if tier == 'quick' else 30]):
+            nv = c['n_vars']
+            extra.append(dict(c, hook='observer', functions=[['EXP', 'COS', 'SUM'], ['EXP', 'SIN', 'SUM', 'MUL'], ['EXP', 'SUB', 'COS', 'SUM'], ['SUB', 'EXP', 'MUL']][j % 4],
+                              min_depth=2, max_depth=6, n_agents=20, n_terminals=2,
+                              n_iter=2, box='wide', lb=[0.0] * nv, ub=[10.0] * nv, objective='sphere',
+                              hyper={'p_reproduction': 0.0, 'p_mutation': 0.0 if j % 2 else 0.3, 'p_crossover': 0.0, 'prunning_ratio': 0.0}))
     if prop in ('C01', 'C02'):
         # rare sites: GP best on the boundary, ABC scout, BHA double exchange
         rng = _random.Random(seed * 17 + 3)
